@@ -95,6 +95,48 @@ theorem verify_codes (C : CryptoFns) (ep : EntryPoint) (tf uf : Option Bytes) :
   repeat' split
   all_goals simp [exitStatus]
 
+/-- status zero already implies the success report (the only zero-returning paths print it) -/
+theorem zero_implies_success_line (C : CryptoFns) (ep : EntryPoint) (tf uf : Option Bytes)
+    (h : exitStatus ep (cliVerifyMetadata C tf uf).1 = 0) : (cliVerifyMetadata C tf uf).2 = true := by
+  revert h
+  unfold cliVerifyMetadata
+  repeat' split
+  all_goals simp [exitStatus]
+
+/-- **a rejection is a non-zero status whatever standard output does** — it takes text, every write to it fails (dead pipe, full device), or the process
+has none: whenever the pair is not one the library accepts, every entry point exits non-zero -/
+theorem rejected_nonzero_any_stdout (C : CryptoFns) (ep : EntryPoint) (st : Stdout) (tf uf : Option Bytes)
+    (hrej : ¬ ∃ t u, loadFile tf = .ok t ∧ loadFile uf = .ok u ∧ LibraryAccepts C t u) :
+    exitStatus ep (cliVerifyUnder C st tf uf).1 ≠ 0 := by
+  have hn : exitStatus ep (cliVerifyMetadata C tf uf).1 ≠ 0 := fun h0 =>
+    hrej ((exit_zero_iff C ep tf uf).mp ⟨h0, zero_implies_success_line C ep tf uf h0⟩)
+  unfold cliVerifyUnder
+  cases st with
+  | takesText => simpa using hn
+  | absent => simpa using hn
+  | failing =>
+    rcases hc : cliVerifyMetadata C tf uf with ⟨o, b⟩
+    rw [hc] at hn
+    cases o with
+    | returned c => simp [exitStatus]
+    | raised e => simpa using hn
+    | usage => simpa using hn
+
+/-- without a standard output object the status is the one reported otherwise (nothing is printed, nothing fails) -/
+theorem absent_stdout_same_status (C : CryptoFns) (ep : EntryPoint) (tf uf : Option Bytes) :
+    exitStatus ep (cliVerifyUnder C .absent tf uf).1 = exitStatus ep (cliVerifyMetadata C tf uf).1 := by
+  simp [cliVerifyUnder]
+
+/-- on a standard output that cannot take text the status is 1 for every pair whose files load and declare a type: the report itself fails -/
+theorem failing_stdout_status (C : CryptoFns) (ep : EntryPoint) (tf uf : Option Bytes) :
+    exitStatus ep (cliVerifyUnder C .failing tf uf).1 = 1 ∨ exitStatus ep (cliVerifyUnder C .failing tf uf).1 = exitStatus ep (cliVerifyMetadata C tf uf).1 := by
+  unfold cliVerifyUnder
+  rcases hc : cliVerifyMetadata C tf uf with ⟨o, b⟩
+  cases o with
+  | returned c => left; simp [exitStatus]
+  | raised e => right; simp
+  | usage => right; simp
+
 /-- **the signing subcommand exits zero only if it actually signed**: status 0 implies the file now holds the signed document -/
 theorem sign_zero_only_if_signed (C : CryptoFns) (ep : EntryPoint) (repodata : Option Bytes) (keyText : Option PStr)
     (h : exitStatus ep (cliSignArtifacts C repodata keyText).1 = 0) :
